@@ -915,6 +915,9 @@ class Machine:
         h = self.lib.get('const:' + name) or self.lib.get('const:' + name.rsplit('::', 1)[-1])
         if h is not None:
             return h(self)
+        g = getattr(self, 'x_generics', None)
+        if g and name in g:
+            return g[name]
         if name.startswith('ZeroSized: '):
             ty = name[11:].strip()
             if ty.startswith('{closure@'):
